@@ -49,3 +49,17 @@ Definition epa_run_m (eps : float) (max_iter max_loose max_faces : nat) (v1 v2 :
            (s0 s1 s2 s3 : V3 float) : nat * V3 float * nat * float :=
   let '(t, m, n) := epa_run eps max_iter max_loose max_faces v1 v2 s0 s1 s2 s3 in
   (t, m, n, margins max_iter (hull_pair_sup (O:=FOps) v1 v2) eps max_loose max_faces (init_faces (O:=FOps) s0 s1 s2 s3) infinity).
+
+(** the modelled loop does reach its success exit: cube [-1,1]^3 against the cube shifted by (1.5,0,0), a simplex of
+    inward orientation: vector (0.5,0,0), 6 faces *)
+Section Example.
+  Open Scope float_scope.
+  Definition ex_cubeF (c s : float) : list (V3 float) :=
+    [V (c - s) (- s) (- s); V (c - s) (- s) s; V (c - s) s (- s); V (c - s) s s;
+     V (c + s) (- s) (- s); V (c + s) (- s) s; V (c + s) s (- s); V (c + s) s s].
+  Example epa_run_reaches_success :
+    epa_run 0x1.5798ee2308c3ap-27 64 32 64 (ex_cubeF 0 1) (ex_cubeF 1.5 1)
+            (V (-2.5) (-2) (-2)) (V 0.5 2 (-1)) (V 0.5 (-2) 2) (V 0.5 1 2)
+    = (1%nat, V 0.5 0 0, 6%nat).
+  Proof. vm_compute. reflexivity. Qed.
+End Example.
